@@ -225,15 +225,22 @@ func TestC05Streams(t *testing.T) {
 		want := bytes.Join(s.payloads, nil)
 		sizes := rapid.SliceOfN(rapid.OneOf(rapid.IntRange(1, 8), rapid.IntRange(1, 5000)), 1, 6).Draw(rt, "readsizes")
 		viaProto := rapid.Bool().Draw(rt, "via-proto-reader")
+		// The source may deliver the stream in arbitrary segments (short reads).
+		var src io.Reader = bytes.NewReader(stream)
+		var srcSegs []int
+		if rapid.Bool().Draw(rt, "segmented-source") {
+			srcSegs = rapid.SliceOfN(rapid.OneOf(rapid.IntRange(1, 30), rapid.IntRange(1, 2000)), 1, 40).Draw(rt, "source-segments")
+			src = &chunkReader{data: stream, segs: append([]int(nil), srcSegs...)}
+		}
 		var got []byte
 		var err error
 		perr := safely(func() error {
 			if viaProto {
-				pr := proto.NewReader(bytes.NewReader(stream))
+				pr := proto.NewReader(src)
 				pr.EnableCompression()
 				got, err = readWith(pr, sizes, len(want)+10)
 			} else {
-				got, err = readWith(compress.NewReader(bytes.NewReader(stream)), sizes, len(want)+10)
+				got, err = readWith(compress.NewReader(src), sizes, len(want)+10)
 			}
 			return nil
 		})
@@ -241,7 +248,7 @@ func TestC05Streams(t *testing.T) {
 			rt.Fatalf("panic while reading %d frames: %v", len(s.frames), perr)
 		}
 		if !bytes.Equal(got, want) {
-			rt.Fatalf("stream of %d frames, read sizes %v: got %d bytes, want %d (first diff at %d), err=%v", len(s.frames), sizes, len(got), len(want), firstDiff(got, want), err)
+			rt.Fatalf("stream of %d frames, read sizes %v, source segments %v: got %d bytes, want %d (first diff at %d), err=%v", len(s.frames), sizes, short(srcSegs), len(got), len(want), firstDiff(got, want), err)
 		}
 		if err == nil {
 			rt.Fatalf("no error at end of stream")
